@@ -11,7 +11,21 @@ def nontrivial_scope(op, obs):
     return any(h.split(".")[0] in (first, "*") for h in hay)
 
 
-PURE_NONTRIVIAL = {"scope": nontrivial_scope}
+def nontrivial_audience(op, obs):
+    if obs == "ok":
+        return True
+    f = op.split("\t")
+    dec = lambda s: [e.split("|") for e in s.split(",")[1:]] if s else []
+    hay, needles = dec(f[2]), dec(f[3])
+    if f[1] == "default":
+        if any(e[1] == "0" for e in hay + needles):
+            return True
+        return any(h[2] == n[2] and h[3] == n[3] for h in hay for n in needles)
+    norm = lambda e: bytes.fromhex(e[0]).rstrip(b"/").lower()
+    return any(norm(h) == norm(n) for h in hay for n in needles)
+
+
+PURE_NONTRIVIAL = {"scope": nontrivial_scope, "audience": nontrivial_audience}
 
 HIST_RULE = ("D1 history driver: seeded histories (2-5 clients, code / hybrid / refresh / revoke / introspect / time-advance / registration-change operations, ~70% valid continuations and ~30% adversarial moves: replay of any generation, foreign or unauthenticated client, changed redirect_uri, verifier variants, mutated or foreign tokens, smuggled parameters, boundary time jumps) executed in-process against the real library over the reference store inside a synctest bubble and against the Lean model; compared per operation: outcome (+RFC error/status), storage-call log, full store dump; a history is non-trivial when an accepted credential exchange is followed by a later operation on one of its tokens; distinct = distinct op sequences")
 
@@ -22,12 +36,49 @@ PROPS = {
         rule=HIST_RULE,
         partial=["family-wide revocation after replay (descendants dead) is checked by the monitor on implementation traces and by the correspondence; its Lean theorem (index invariant) is not yet proved"],
     ),
+    "C02": dict(
+        modules=["Fosite.Props.C02"],
+        drivers=[dict(name="hist", kind="hist")],
+        rule=HIST_RULE,
+        partial=["'a refused attempt leaves the code usable by its rightful holder' is checked by the monitor and the correspondence (store dump unchanged), not yet as a Lean theorem"],
+    ),
+    "C03": dict(
+        modules=["Fosite.Props.C03"],
+        drivers=[dict(name="hist", kind="hist")],
+        rule=HIST_RULE + "; C03 bias: sequences of attempts on one code drawn from {wrong, malformed, absent, other-method, right} verifier",
+        partial=["full statement (binding survives failed attempts) — see pkce_binding_counterexample / known findings"],
+    ),
+    "C04": dict(
+        modules=["Fosite.Props.C04"],
+        drivers=[dict(name="hist", kind="hist")],
+        rule=HIST_RULE,
+        partial=["'the access token issued alongside is inactive after rotation' and 'reuse kills the whole family' are checked by the monitor and the correspondence; their Lean theorems need the access-token index invariant (not yet proved)"],
+    ),
+    "C05": dict(
+        modules=["Fosite.Props.C05"],
+        drivers=[dict(name="hist", kind="hist")],
+        rule=HIST_RULE,
+        partial=["issuance rule is proved for the code flow; password and device flows are not yet in the model"],
+    ),
+    "C08": dict(
+        modules=["Fosite.Props.C08"],
+        drivers=[dict(name="hist", kind="hist")],
+        rule=HIST_RULE,
+        partial=["effectiveness for a presented *access* token needs the access-token index invariant; see known findings for the hybrid-flow counterexample"],
+    ),
+    "C09": dict(
+        modules=["Fosite.Props.C09"],
+        drivers=[dict(name="hist", kind="hist")],
+        rule=HIST_RULE,
+        partial=["caller authentication of the HTTP introspection endpoint (NewIntrospectionRequest) is not yet in the model; refresh-token soundness/completeness mirror the access-token theorems and are covered by the refinement theorem"],
+    ),
     "C12": dict(
-        modules=["Fosite.Props.C12"],
-        drivers=[dict(name="scope", kind="pure")],
-        rule="D4 pure driver: every (strategy, matcher list, needle) over the segment alphabet {a,b,*,''} up to 3 (quick) / 4 (thorough) segments with one matcher, sampled/exhaustive pairs of matchers, plus seeded random long dotted names biased to near-matches; a case is non-trivial when it is accepted or some matcher agrees with the needle on its first segment (so the decision is made deeper than the first comparison); distinct = distinct op lines",
-        assumptions=["strings are compared as sequences of Unicode code points in the model and bytes in Go; the generators use ASCII only"],
-        partial=["hierarchic and audience equivalence theorems, flow confinement theorems: not yet proved (correspondence + spec monitor only)"],
+        modules=["Fosite.Props.C12", "Fosite.Props.C12b"],
+        drivers=[dict(name="scope", kind="pure"), dict(name="audience", kind="pure")],
+        rule="D4 pure drivers. scope: every (strategy, matcher list, needle) over the segment alphabet {a,b,*,''} up to 3 (quick) / 4 (thorough) segments with one matcher, sampled/exhaustive pairs of matchers, plus seeded random long dotted names biased to near-matches; non-trivial = accepted, or some matcher agrees with the needle on its first segment. audience: every entry carries the components the real net/url.Parse produced; bounded-exhaustive single whitelisted x single requested URL over schemes x hosts x path shapes ('', '/', '/a', '/a/', '/a/b', '/ab', '/a//', '//a', ...), same-origin path pairs with query/fragment/userinfo decorations, unparsable strings and non-URL audiences in every list position, pairs of lists, seeded random lists with 75% near-match mutations; non-trivial = accepted, or a parse error is involved, or some pair agrees on scheme and host so the path rule decides (default) / is equal up to trailing slashes and case (exact). distinct = distinct op lines",
+        assumptions=["scope strings are compared as sequences of Unicode code points in the model and bytes in Go; the scope generators use ASCII only",
+                     "audience strings are transported hex-encoded byte by byte, so byte semantics are exact; net/url.Parse is trusted: the model takes its output (ok/scheme/host/path) as input and the harness re-derives it from the raw string on every execution, including replay"],
+        partial=["flow confinement (no flow accepts an uncovered scope/audience; tokens never carry an ungranted one) is checked by the history correspondence and the C12 monitor clauses; Lean theorems for it exist per flow only for refresh (C05) and redeem (C02)"],
     ),
 }
 
